@@ -31,6 +31,8 @@ namespace hmac_hash {
     /// \brief Class for computing SHA1 hash
     class HMAC_CPP_API SHA1 {
     public:
+        /// \brief Wipes buffered message bytes before the buffer is released
+        ~SHA1();
 
         /// \brief Initializes SHA1 context
         void init();
@@ -52,6 +54,7 @@ namespace hmac_hash {
     protected:
         void buffer_to_block(const uint8_t* buffer, uint32_t* block);
         void transform(uint32_t *block);
+        void wipe_buffer();
         uint32_t m_h[5];
         size_t m_transforms;
         std::vector<uint8_t> m_buffer;
